@@ -160,12 +160,13 @@ def _observe(job):
             grid = np.unique(np.concatenate([np.linspace(lo - 3 * span, hi + 3 * span, 141), np.linspace(lo, hi, 61)]))
             # cells should not straddle the end of a bounded support (the density jumps or is singular there): the ends the
             # model itself reports through percent_point(0) / percent_point(1) become grid points
+            ends = np.array([])
             try:
                 ends = np.asarray(m.percent_point(np.array([0.0, 1.0])), dtype=float)
                 ends = ends[np.isfinite(ends) & (ends > grid[0]) & (ends < grid[-1])]
                 grid = np.unique(np.concatenate([grid, ends]))
             except Exception:
-                pass
+                ends = np.array([])
             F = np.asarray(m.cumulative_distribution(grid.copy()), dtype=float)
             far = np.array([lo - 1e12 * span, -np.inf, hi + 1e12 * span, np.inf])
             Ffar = np.asarray(m.cumulative_distribution(far.copy()), dtype=float)
@@ -194,6 +195,12 @@ def _observe(job):
             with np.errstate(all='ignore'):
                 nodemax = np.maximum(pv.max(axis=1), 1e-300)
                 sing = np.isposinf(Pd[:-1]) | np.isposinf(Pd[1:]) | (Pd[:-1] > 50 * nodemax) | (Pd[1:] > 50 * nodemax)
+            # a cell a few ulps wide (the end of the support the model reports next to the extreme observation it was fitted to) cannot be
+            # resolved either: next to a singular end those few ulps carry 1e-4 of the mass (1 - cdf ~ (1 - x)^b with b = 0.2)
+            sing = sing | (((b - a) <= 1e-9 * span) & (np.isin(a, ends) | np.isin(b, ends)))
+            # ... and the cell that touches a support end the model reports, with the density growing towards that end (the value AT the end
+            # can come out as 0 instead of +inf when (x - loc) / scale rounds to a hair above 1)
+            sing = sing | (np.isin(b, ends) & (pv[:, -1] > 5 * np.maximum(pv[:, 0], 1e-300))) | (np.isin(a, ends) & (pv[:, 0] > 5 * np.maximum(pv[:, -1], 1e-300)))
             sing = sing | np.concatenate([[False], sing[:-1]]) | np.concatenate([sing[1:], [False]])     # and its neighbours: one ulp next to
             # such an end moves the cdf by a percent (e.g. Beta with b = 0.12: 1 - cdf ~ (1 - x)^b)
             I[6] = np.where(sing, np.nan, I[6])
@@ -365,7 +372,7 @@ def _bigcall(job):
 def run(ctx):
     quick = ctx.tier == 'quick'
     ctx.rule = ('every univariate class and option set of the property (6 scipy families, TruncatedGaussian with and without bounds, GaussianKDE with '
-                'scott / silverman / 0.3 / 1.0 / sample_size, the selecting Univariate with three candidate configurations) x 8 data shapes x sizes '
+                'scott / silverman / 0.3 / 1.0 / sample_size, the selecting Univariate with four candidate configurations, one of them a list of instances shared with a second wrapper) x 8 data shapes x sizes '
                 '%s (plus constant data): cdf, pdf, log_pdf on a 200-point grid reaching 3 ranges beyond the data and at +-1e12 ranges / +-inf, '
                 'Gauss-Legendre cell integrals of the pdf, percent_point on 57 probabilities with the cdf at the adjacent floats, ppf(cdf(x)); TLC '
                 '(DistLaws) evaluates the laws.  non-trivial = a model that could be fitted; distinct by (model, shape, size)') % ('{50}' if quick else '{5, 50, 500}')
